@@ -98,6 +98,10 @@ OutcomeFunction ==
           /\ ~LibReply(h, [r EXCEPT !.an = 1], o.reply))
     /\ EncHeader(h)[1] = h.id \div 256 /\ DecHeader(EncHeader(h)) = h
 
+\* the lifecycle phase of the server is no exception to any clause (and the export below uses OutcomeAt)
+PhaseIrrelevant ==
+  kind = "hdr" => \A ph \in Phases : OutcomeAt(ph, len, h, dec) = Outcome(len, h, dec)
+
 RouteInv ==
   kind = "route" =>
     LET R == RouteSet(PS, qn, qt)
